@@ -16,6 +16,7 @@ import (
 	"encoding/json"
 	"fmt"
 	"io"
+	"math"
 	"math/rand"
 	"os"
 	"runtime"
@@ -39,6 +40,43 @@ type Config struct {
 	WhoR      []int   `json:"whor"`
 	Threshold float64 `json:"threshold"` // MinimumWeightedSimilarity
 	Prefer    float64 `json:"prefer"`    // PreferPointerAbove
+	// Near, when given, is [i, j, k, which]: before the runs the threshold (which = 0) or the trusted-pointer level
+	// (which = 1) is moved onto the measured similarity of left i / right j, adjusted by the k-th of
+	// {exactly, one ulp above, one ulp below, 3e-7 above, 3e-7 below, 4e-5 above, 4e-5 below}: boundary inputs
+	Near []int `json:"near"`
+}
+
+var nudges = []func(float64) float64{
+	func(v float64) float64 { return v },
+	func(v float64) float64 { return math.Nextafter(v, 2) },
+	func(v float64) float64 { return math.Nextafter(v, -1) },
+	func(v float64) float64 { return v + 3e-7 },
+	func(v float64) float64 { return v - 3e-7 },
+	func(v float64) float64 { return v + 4e-5 },
+	func(v float64) float64 { return v - 4e-5 },
+}
+
+// applyNear resolves Near into concrete thresholds (input preparation; similarities are measured again afterwards).
+func applyNear(c Config) Config {
+	if len(c.Near) != 4 || c.Near[0] >= len(c.PtrL) || c.Near[1] >= len(c.PtrR) {
+		c.Near = []int{}
+		return c
+	}
+	left, _ := gedcom.NewDocumentFromString(docText(c.PtrL, c.UidL, c.WhoL, "L"))
+	right, _ := gedcom.NewDocumentFromString(docText(c.PtrR, c.UidR, c.WhoR, "R"))
+	a, b := left.Individuals()[c.Near[0]], right.Individuals()[c.Near[1]]
+	o := options(c, 1)
+	v := a.SurroundingSimilarity(b, o.SimilarityOptions, true).WeightedSimilarity()
+	v = nudges[c.Near[2]%len(nudges)](v)
+	if v < 0 {
+		v = 0
+	}
+	if c.Near[3] == 0 {
+		c.Threshold = v
+	} else {
+		c.Prefer = v
+	}
+	return c
 }
 
 var givenNames = []string{"Zed", "Adam", "Bertha", "Conrad", "Dorothea", "Edmund", "Frederica", "Gustav", "Henrietta", "Ignatius", "Josephine", "Konrad", "Leopoldine", "Maximilian"}
@@ -259,6 +297,7 @@ func Run(r io.Reader, w io.Writer, seed int64, perCfg int) error {
 			return fmt.Errorf("bad configuration: %v", err)
 		}
 		n++
+		c = applyNear(c)
 		in, err := measure(c)
 		if err != nil {
 			return err
@@ -286,7 +325,7 @@ func Run(r io.Reader, w io.Writer, seed int64, perCfg int) error {
 
 func randConfig(rng *rand.Rand, maxN int) Config {
 	nl, nr := rng.Intn(maxN+1), rng.Intn(maxN+1)
-	c := Config{PtrL: []int{}, PtrR: []int{}, UidL: []int{}, UidR: []int{}, WhoL: []int{}, WhoR: []int{},
+	c := Config{PtrL: []int{}, PtrR: []int{}, UidL: []int{}, UidR: []int{}, WhoL: []int{}, WhoR: []int{}, Near: []int{},
 		Threshold: []float64{0, 0.735, 0.735, 0.9, 1}[rng.Intn(5)], Prefer: []float64{0, 0.735, 0.735, 1}[rng.Intn(4)]}
 	for i := 0; i < nl; i++ {
 		c.PtrL = append(c.PtrL, i+1)
@@ -317,6 +356,18 @@ func randConfig(rng *rand.Rand, maxN int) Config {
 			u = 1 + rng.Intn(4)
 		}
 		c.UidR = append(c.UidR, u)
+	}
+	if nl > 0 && nr > 0 && rng.Intn(3) == 0 { // a threshold right on (or a hair off) a measured similarity
+		i := rng.Intn(nl)
+		j := rng.Intn(nr)
+		if rng.Intn(2) == 0 && i < nr { // prefer a pair that is the same person
+			j = i
+			c.WhoR[j] = c.WhoL[i]
+		}
+		c.Near = []int{i, j, rng.Intn(len(nudges)), rng.Intn(2)}
+		if c.Near[3] == 1 {
+			c.PtrR[j] = c.PtrL[i] // the trusted-pointer level only matters for a shared pointer
+		}
 	}
 	// pointers on the right must be unique
 	seen := map[int]bool{}
